@@ -139,8 +139,9 @@ class SchemaValidator:
                 or type_ in SPECIFIED_SCALAR_TYPES
                 or _is_valid_name(type_.name)
             ):
+                # All violations are reported together, including the other
+                # ones of an ill named type.
                 self.add_error('Invalid type name "%s"' % type_.name)
-                continue
 
             if isinstance(type_, ObjectType):
                 self.validate_fields(type_)
